@@ -273,7 +273,7 @@ func init() {
 		Race:        func(t string, i int) bool { return i%40 == 0 },
 		Run: func(c *core.Case) *core.Result {
 			return runFileCase(c, fileCaseSpec{
-				mon:     Monitors{Property: "C04", Ownership: true, Partition: true, Content: true},
+				mon:     Monitors{Property: "C04", Ownership: true, Partition: true, Coverage: true, Content: true},
 				bounded: 2,
 				gen: func(c *core.Case, p *GenParams) {
 					p.Txs = 15 + c.R.Intn(45)
@@ -302,7 +302,7 @@ func init() {
 		NumCases:    func(t string) int { return tierN(t, 1500, 50000) },
 		Run: func(c *core.Case) *core.Result {
 			return runFileCase(c, fileCaseSpec{
-				mon:     Monitors{Property: "C07", AbortID: true, Content: true, Partition: true, ReopenID: true},
+				mon:     Monitors{Property: "C07", AbortID: true, Content: true, Partition: true, Coverage: true, ReopenID: true},
 				bounded: 2,
 				gen: func(c *core.Case, p *GenParams) {
 					p.Txs = 10 + c.R.Intn(30)
@@ -328,7 +328,7 @@ func init() {
 		NumCases:    func(t string) int { return tierN(t, 1000, 30000) },
 		Run: func(c *core.Case) *core.Result {
 			return runFileCase(c, fileCaseSpec{
-				mon:     Monitors{Property: "C10", ReopenID: true, Content: true, Partition: true},
+				mon:     Monitors{Property: "C10", ReopenID: true, Content: true, Partition: true, Coverage: true},
 				bounded: 2,
 				gen: func(c *core.Case, p *GenParams) {
 					p.Txs = 10 + c.R.Intn(30)
